@@ -113,3 +113,16 @@ package quic
 //@   after call io.ReadFull: lastErr = res1
 //@   ensures imp(result1 == nil, reads % 4 == 1 && lastErr == io.EOF)
 //@   loop 1 invariant reads % 4 == 0
+
+// ---------------------------------------------------------------- C13 / C14 / C17: construction
+// The transport compresses exactly as the negotiated parameters say (CompressConfig, proved under
+// C17), numbers its first datagram 0, and forgets incomplete datagram messages after the configured
+// expiry (10 s when none is configured).
+//@ func New
+//@   props C13 C14 C17
+//@   ghostvar en bool = false
+//@   ghostvar lvl int = 0
+//@   after call CompressConfig: en = res0.Enable
+//@   after call CompressConfig: lvl = res0.Level
+//@   assert call CompressConfig: arg1 == config.CompressConfig
+//@   assert call OpenUniStream: t.compressConfig.Enable == en && t.compressConfig.Level == lvl && t.sequenceNumber == 4294967295 && t.readBufferForUnreliable != nil && t.readBufferForUnreliable.ReadBuffer != nil && len(t.readBufferForUnreliable.ReadBuffer) == 0 && t.readBufferForUnreliable.ReadBufferExpiry == ite(old(config.ReadBufferExpiry) == 0, 10000000000, old(config.ReadBufferExpiry))
